@@ -17,14 +17,18 @@ func init() {
 	register("C06", "exploration", c06)
 }
 
-// backtrackCases: the shared-prefix profile (3/4) mixed with the all-operator profile (1/4).
+// backtrackCases: the shared-prefix profile (5/8) mixed with the all-operator (1/4) and wide-choice (1/8) profiles.
 func backtrackCases(c *ctx, n int, nIn int, probes bool, inline bool) []*gcase {
 	r := rand.New(rand.NewSource(c.env.Seed))
 	var cases []*gcase
 	for i := 0; i < n; i++ {
 		var g *gram.Grammar
 		alpha := []rune("abc\né😀")
-		if i%4 == 3 {
+		if i%8 == 5 {
+			// wide choices (also under & and !): the shapes peg's -switch rewrites
+			g = gram.ChoiceHeavy(r)
+			alpha = append([]rune("abcdefgz"), g.Runes()...)
+		} else if i%4 == 3 {
 			p := gram.AllOps()
 			p.WCapture, p.WAction, p.WAnd, p.WNot, p.LRef, p.MinRules = 4, 4, 3, 3, 8, 2
 			p.EnterProbes = probes && i%8 == 3
